@@ -41,4 +41,17 @@ def ordinal (m d : Nat) : Int := (julianOrdinalDay m).getD 0 + (d : Int)
 /-- the binary value of a date: hours since 1 January −5000 in the 365-day calendar -/
 def binOf (y : Int) (m d h0 : Nat) : Int := ((y + 5000) * 365 + ordinal m d) * 24 + (h0 : Int)
 
+/-! ### text grammar of the component parser -/
+
+/-- `t` is one or two ASCII digits with decimal value `v` -/
+def Num12 (t : Bytes) (v : Nat) : Prop :=
+  (∃ a, t = [a] ∧ isDigit a = true ∧ v = digitVal a) ∨
+  (∃ a b, t = [a, b] ∧ isDigit a = true ∧ isDigit b = true ∧ v = digitVal a * 10 + digitVal b)
+
+/-- `data` is `.M.D` (then `h = 0`) or `.M.D.H` with `H ≠ 0`, every component one or two digits -/
+def IsRestText (data : Bytes) (m d h : Nat) : Prop :=
+  ∃ mt dt, Num12 mt m ∧ Num12 dt d ∧
+    ((h = 0 ∧ data = 46 :: mt ++ 46 :: dt) ∨
+     (∃ ht, Num12 ht h ∧ h ≠ 0 ∧ data = 46 :: mt ++ 46 :: dt ++ 46 :: ht))
+
 end Jomini.Date
